@@ -11,6 +11,10 @@ import (
 )
 
 const (
+	hParam = iota + 100 // heap maps are formal parameters (body of a recursive spec function)
+)
+
+const (
 	hEntry = iota
 	hOverride
 	hMerge
@@ -33,6 +37,7 @@ type Heap struct {
 	noFrame bool // call havoc: the frame is an obligation of the caller, not an axiom
 	// hLoop: modified names (nil = all); entry preds in preds/conds
 	memo map[string]string
+	paramOrder [][2]string
 }
 
 func (g *FuncGen) newHeap(kind int) *Heap {
@@ -47,6 +52,9 @@ func (g *FuncGen) heapGet(h *Heap, name, srt string) string {
 	}
 	var t string
 	switch h.kind {
+	case hParam:
+		t = q("hp:" + name)
+		h.paramOrder = append(h.paramOrder, [2]string{name, srt})
 	case hEntry:
 		t = g.declare("H0:"+name, srt)
 		g.heapSorts[name] = srt
